@@ -129,6 +129,11 @@ func (k Keeper) GetNextSuperNodes(ctx sdk.Context, status uint32, reputation flo
 	}
 
 	snodes := k.GetAllSuperNodes(ctx)
+	if int(round[0]) > len(snodes) {
+		// the super node set shrank below the stored cursor: restart the round, otherwise the loop
+		// below never reaches its stop index
+		round = []byte{0}
+	}
 	i := uint8(round[0])
 	if len(snodes) > 0 {
 		for {
